@@ -160,9 +160,17 @@ def parse_template(path):
             elif d.startswith('replace-span') or d.startswith('replace-upto'):
                 rule = (d.split('@<')[0].split() + ['R?'])[1]
                 lit = _lits(d)
-                if len(lit) != 3:
+                kind = 'upto' if d.startswith('replace-upto') else 'span'
+                if len(lit) == 2:
+                    # the replacement is the block of lines that follows the directive
+                    block = []
+
+                    def setter(t, kind=kind, rule=rule, lit=lit, cur=cur):
+                        cur.replaces.append((kind, rule, (lit[0], lit[1]), t))
+                elif len(lit) != 3:
                     raise TemplateError('%s:%d replace-span needs start, end and replacement literals' % (path, ln))
-                cur.replaces.append(('upto' if d.startswith('replace-upto') else 'span', rule, (lit[0], lit[1]), lit[2]))
+                else:
+                    cur.replaces.append((kind, rule, (lit[0], lit[1]), lit[2]))
             elif d.startswith('replace'):
                 head = d.split('@<')[0].split()
                 allf = 'all' in head
